@@ -284,6 +284,9 @@ def parse_value(ty, s, i=0):
         if s.startswith(kw, i): return Val(ty, val), i+len(kw)
     for kw in ('undef', 'poison', 'zeroinitializer'):
         if s.startswith(kw, i):
+            if kw == 'undef' and isinstance(ty, TInt) and ty.n in (8, 16, 32, 64) and UNDEF_NONDET:
+                # an indeterminate value: any value (so that a result depending on it fails for some value)
+                return Val(ty, '((%s)LL2C_UNDEF())' % ctype(ty)), i+len(kw)
             if isinstance(ty, TStruct): return Val(ty, '((%s){0})' % ctype(ty)), i+len(kw)
             if is_ptr(ty): return Val(ty, '((%s)0)' % ctype(ty)), i+len(kw)
             return Val(ty, '((%s)0)' % ctype(ty)), i+len(kw)
@@ -599,7 +602,9 @@ def main():
             i += 1; continue
         i += 1
 
+    collect_nounwind(lines)
     collect_addr_taken(lines)
+    collect_typeinfo_bases()
     collect_new_types(lines)
     # globals
     for gname, (ty, init, ext) in GLOBALS.items():
@@ -638,6 +643,8 @@ def main():
     print('\n'.join(out_types))
     print('\n'.join(out_proto))
     print('\n'.join(out_glob))
+    if HAS_EH[0]: print('\n'.join(emit_eh_runtime()))
+    print('#define LL2C_CATCH_ALL_ID %d' % (len(TI_IDS) + 100))
     print('void ll2c_init_globals%s(void) {\n  ' % (('_' + PFX.strip('_')) if PFX else '') + '\n  '.join(out_init) + '\n}')
     print('\n'.join(out_fn))
 
@@ -646,6 +653,7 @@ PFX = ''    # --prefix P: all emitted global names become gP<name> (two TUs in o
 import os
 PTR_WORD_COPY = os.environ.get('LL2C_PTRWORD', '1') == '1'
 NEW_MODE = os.environ.get('LL2C_NEW', 'words')
+UNDEF_NONDET = os.environ.get('LL2C_UNDEF', '1') == '1'
 
 # environment functions the TU only declares: contract stubs (listed in evidence assumptions)
 def stub_body(name, fty):
@@ -666,12 +674,21 @@ def stub_body(name, fty):
     if n.startswith('_ZN5boost15throw_exception'): return 'll2c_fail("boost::throw_exception");'
     if n in ('_ZNSt9exceptionD1Ev', '_ZNSt9exceptionD2Ev', '_ZNSt13runtime_errorD1Ev', '_ZNSt13runtime_errorD2Ev',
              '_ZNSt11logic_errorD2Ev', '_ZNSt9type_infoD2Ev', '_ZNSt9bad_allocD1Ev', '_ZNSt8bad_castD2Ev', '_ZNSt8bad_castD1Ev'): return ''
-    if n in ('_ZNSt13runtime_errorC2EPKc', '_ZNSt13runtime_errorC1EPKc', '_ZNSt11logic_errorC2EPKc'): return ''
+    if n in ('_ZNSt13runtime_errorC2EPKc', '_ZNSt13runtime_errorC1EPKc', '_ZNSt11logic_errorC2EPKc', '_ZNSt13runtime_errorC2ERKS_', '_ZNSt13runtime_errorC1ERKS_'): return ''
     if n in ('_ZNKSt13runtime_error4whatEv', '_ZNKSt9exception4whatEv', '_ZNKSt11logic_error4whatEv', '_ZNKSt8bad_cast4whatEv'): return 'return (%s)"what";' % ret
     if n in EXC_STUBS: return EXC_STUBS[n](ret, fty)
     return None
 
-EXC_STUBS = {}
+EXC_STUBS = {
+    '__cxa_allocate_exception': lambda ret, fty: 'char* p = (char*)malloc(a0); LL2C_ASSUME(p != 0); return (%s)p;' % ret,
+    '__cxa_free_exception': lambda ret, fty: 'free((char*)a0);',
+    '__cxa_throw': lambda ret, fty: 'll2c_exc_obj = (char*)a0; ll2c_exc_type = (char*)a1; ll2c_exc_pending = 1;',
+    '__cxa_begin_catch': lambda ret, fty: 'return (%s)a0;' % ret,
+    '__cxa_end_catch': lambda ret, fty: '',
+    '__cxa_rethrow': lambda ret, fty: 'll2c_exc_pending = 1;',
+    '__clang_call_terminate': lambda ret, fty: 'll2c_fail("std::terminate (exception escaped a noexcept region)");',
+    '_ZSt9terminatev': lambda ret, fty: 'll2c_fail("std::terminate");',
+}
 
 def emit_extern_stubs():
     out = []
@@ -715,6 +732,56 @@ def collect_new_types(lines):
                     if size_of(t.to) == newres[m.group(1)]:
                         NEW_TYPES.setdefault(newres[m.group(1)], set()).add(cstruct_name(t.to))
                 except Exception: pass
+
+NOUNWIND_GROUPS = set()
+FUNC_NOUNWIND = {}
+HAS_EH = [False]
+def collect_nounwind(lines):
+    for ln in lines:
+        m = re.match(r'attributes (#\d+) = \{(.*)\}', ln)
+        if m and re.search(r'\bnounwind\b', m.group(2)): NOUNWIND_GROUPS.add(m.group(1))
+    for ln in lines:
+        if ln.startswith('define') or ln.startswith('declare'):
+            am = re.search(r'(@"[^"]*"|@[-A-Za-z0-9_.$]+)\s*\(', ln)
+            if not am: continue
+            tail = ln[match_paren(ln, am.end()-1)+1:]
+            gs = re.findall(r'#\d+', tail)
+            FUNC_NOUNWIND[am.group(1)] = bool(re.search(r'\bnounwind\b', tail)) or any(g in NOUNWIND_GROUPS for g in gs)
+        if 'landingpad' in ln or ' invoke ' in ln: HAS_EH[0] = True
+
+TI_BASES = {}    # typeinfo symbol -> list of (transitive) base typeinfo symbols
+TI_IDS = {}      # typeinfo symbol -> selector value of llvm.eh.typeid.for
+def collect_typeinfo_bases():
+    direct = {}
+    for g, (ty, init, ext) in GLOBALS.items():
+        if not g.startswith('@_ZTI'): continue
+        TI_IDS.setdefault(g, len(TI_IDS) + 1)
+        direct[g] = [x for x in re.findall(r'@_ZTI[A-Za-z0-9_]+', init or '') if x != g]
+    for g in direct:
+        seen = []; todo = list(direct[g])
+        while todo:
+            b = todo.pop(0)
+            if b in seen: continue
+            seen.append(b); todo += direct.get(b, [])
+            TI_IDS.setdefault(b, len(TI_IDS) + 1)
+        TI_BASES[g] = seen
+
+def emit_eh_runtime():
+    out = ['char* ll2c_exc_obj; char* ll2c_exc_type;',
+           '/* does an exception of dynamic type t match a catch clause for type c (0 = catch all)? */',
+           'static int ll2c_eh_match(char* t, char* c) {', '  if (c == 0 || t == c) return 1;']
+    for g, bases in TI_BASES.items():
+        if GLOBALS[g][2] or not bases: continue
+        out.append('  if (t == (char*)&%s) return %s;' % (global_name(g), ' || '.join('c == (char*)&%s' % global_name(b) for b in bases)))
+    out += ['  return 0;', '}']
+    return out
+
+def dummy_return(rty):
+    if isinstance(rty, TVoid): return 'return;'
+    if isinstance(rty, TStruct): return '{ %s r_; memset(&r_, 0, sizeof r_); return r_; }' % ctype(rty)
+    return 'return (%s)0;' % ctype(rty)
+
+CUR_FN = {'rty': None, 'nounwind': True}
 
 def collect_addr_taken(lines):
     fnames = sorted(FUNCS.keys(), key=len, reverse=True)
@@ -782,6 +849,7 @@ BINOPS = {'add':'+','sub':'-','mul':'*','and':'&','or':'|','xor':'^','shl':'<<',
 ICMP = {'eq':'==','ne':'!=','ugt':'>','uge':'>=','ult':'<','ule':'<=','sgt':'>','sge':'>=','slt':'<','sle':'<='}
 
 def translate_fn(fname, rty, ptys, pnames, byval, body):
+    CUR_FN['rty'] = rty; CUR_FN['nounwind'] = FUNC_NOUNWIND.get(fname, False)
     for k in [k for k in PTRINFO if k.startswith('v_')]: del PTRINFO[k]
     PTRINT.clear()
     PTRISH.clear()
@@ -809,6 +877,8 @@ def translate_fn(fname, rty, ptys, pnames, byval, body):
             continue
         if s.startswith('switch') and s.endswith('['):
             pending = s; continue
+        if (s.startswith('to label ') or s.startswith('catch ') or s == 'cleanup' or s.startswith('filter ')) and blocks[cur]:
+            blocks[cur][-1] += ' ' + s; continue      # continuation lines of invoke / landingpad
         blocks[cur].append(s)
     # name of entry block for phis: implicit numbering
     unnamed = [p for p in pnames if p and re.fullmatch(r'%\d+', p)]
@@ -898,6 +968,26 @@ def translate_ins(s, bl, decls, goto, fname):
         res.append(goto(bl, m.group(2)))
         return res
     if op == 'unreachable': return ['ll2c_unreachable();']
+    if op == 'landingpad':
+        ty, p = parse_type(rest)
+        clauses = re.findall(r'\b(cleanup)\b|catch i8\* (null|bitcast \([^)]*\)|@"[^"]*"|@[-A-Za-z0-9_.$]+)', rest)
+        decls[dst] = ctype(ty)
+        code = ['ll2c_exc_pending = 0; %s.f0 = ll2c_exc_obj; %s.f1 = 0;' % (dst, dst)]
+        has_cleanup = any(c[0] for c in clauses)
+        chain = []
+        for c in clauses:
+            if c[0]: continue
+            if c[1] == 'null': chain.append(('(char*)0', 'LL2C_CATCH_ALL_ID'))
+            else:
+                tim = re.search(r'@_ZTI[A-Za-z0-9_]+', c[1])
+                ti = tim.group(0); TI_IDS.setdefault(ti, len(TI_IDS) + 1)
+                chain.append(('(char*)&%s' % global_name(ti), str(TI_IDS[ti])))
+        sel = ' else '.join('if (ll2c_eh_match(ll2c_exc_type, %s)) %s.f1 = %s;' % (c, dst, i) for c, i in chain)
+        if chain:
+            code.append(sel + (' else { %s }' % ('' if has_cleanup else 'll2c_exc_pending = 1; ' + dummy_return(CUR_FN['rty']))))
+        return code
+    if op == 'resume':
+        return ['ll2c_exc_pending = 1; ' + dummy_return(CUR_FN['rty'])]
     if op == 'alloca':
         ty, p = parse_type(rest)
         m = re.search(r'align (\d+)', rest)
@@ -1064,7 +1154,10 @@ def translate_call(s, dst, decls, goto, bl):
         elif n.startswith('llvm.memmove'): call = 'memmove((char*)%s, (char*)%s, %s)' % (args[0].c, args[1].c, args[2].c)
         elif n.startswith('llvm.memset'): call = 'memset((char*)%s, %s, %s)' % (args[0].c, args[1].c, args[2].c)
         elif n.startswith('llvm.trap'): call = 'll2c_trap()'
-        elif n.startswith('llvm.eh.typeid.for'): call = 'll2c_eh_typeid_for(%s)' % args[0].c
+        elif n.startswith('llvm.eh.typeid.for'):
+            tim = re.search(r'g_(_ZTI[A-Za-z0-9_]+)', args[0].c)
+            ti = '@' + tim.group(1); TI_IDS.setdefault(ti, len(TI_IDS) + 1)
+            call = '((uint32_t)%d)' % TI_IDS[ti]
         elif n.startswith('llvm.expect'): call = args[0].c
         elif re.match(r'llvm\.(umax|umin|smax|smin)\.', n):
             k = n.split('.')[1]; t = args[0].ty.n
@@ -1114,6 +1207,12 @@ def translate_call(s, dst, decls, goto, bl):
     if is_invoke:
         m = re.search(r'to label (%"[^"]*"|%[-A-Za-z0-9_.$]+) unwind label (%"[^"]*"|%[-A-Za-z0-9_.$]+)', tail)
         res.append('if (ll2c_exc_pending) %s else %s' % (goto(bl, m.group(2)), goto(bl, m.group(1))))
+    elif HAS_EH[0] and not CUR_FN['nounwind'] and not (name and name.startswith('@llvm.')):
+        callee_nounwind = (name is not None and name.startswith('@') and FUNC_NOUNWIND.get(name, False)) or \
+                          any(g in NOUNWIND_GROUPS for g in re.findall(r'#\d+', tail)) or bool(re.search(r'\bnounwind\b', tail))
+        if not callee_nounwind or name == '@__cxa_throw':
+            # an exception raised in the callee propagates through this (non-invoke) call site
+            res.append('if (ll2c_exc_pending) { %s }' % dummy_return(CUR_FN['rty']))
     return res
 
 if __name__ == '__main__':
